@@ -417,6 +417,7 @@ type c19ConnObs struct {
 	RawRecords   []int  `json:"raw_record_types_from_client"`
 	RawBytes     int    `json:"raw_bytes_from_client"`
 	Replied      int    `json:"replies_sent"`
+	Resumed      bool   `json:"session_resumed"`
 	done         chan struct{}
 	clientDER    []byte
 }
@@ -472,6 +473,7 @@ type c19Station struct {
 	metaBody  []byte
 	stray     int
 	wg        sync.WaitGroup
+	ticketKey [32]byte
 }
 
 func newC19Station(role string, clientDER []byte) (*c19Station, error) {
@@ -480,6 +482,7 @@ func newC19Station(role string, clientDER []byte) (*c19Station, error) {
 		return nil, err
 	}
 	s := &c19Station{role: role, ln: ln, port: ln.Addr().(*net.TCPAddr).Port, clientDER: clientDER}
+	_, _ = crand.Read(s.ticketKey[:])
 	go s.acceptLoop()
 	return s, nil
 }
@@ -553,16 +556,18 @@ func (s *c19Station) handle(conn net.Conn, sc *c19ServerCase, o *c19ConnObs, met
 	}
 	chain := sc.chain
 	cfg := &tls.Config{
-		MinVersion:             sc.version,
-		MaxVersion:             sc.version,
-		ClientAuth:             tls.RequestClientCert, // log whatever the client presents, never reject it
-		SessionTicketsDisabled: true,
+		MinVersion: sc.version,
+		MaxVersion: sc.version,
+		ClientAuth: tls.RequestClientCert, // log whatever the client presents, never reject it
+		// a node keeps its session-ticket keys when its certificate is replaced: tickets are issued, under one key per station
+		SessionTicketsDisabled: false,
 		GetCertificate: func(chi *tls.ClientHelloInfo) (*tls.Certificate, error) {
 			o.SawHello = true
 			o.SNI = chi.ServerName
 			return &chain, nil
 		},
 	}
+	cfg.SetSessionTicketKeys([][32]byte{s.ticketKey})
 	tc := tls.Server(rec, cfg)
 	if err := tc.Handshake(); err != nil {
 		o.HandshakeErr = err.Error()
@@ -573,6 +578,7 @@ func (s *c19Station) handle(conn net.Conn, sc *c19ServerCase, o *c19ConnObs, met
 	o.HandshakeOK = true
 	st := tc.ConnectionState()
 	o.TLSVersion = tls.VersionName(st.Version)
+	o.Resumed = st.DidResume
 	o.ClientCerts = len(st.PeerCertificates)
 	if len(st.PeerCertificates) > 0 {
 		o.ClientCertOK = bytes.Equal(st.PeerCertificates[0].Raw, o.clientDER)
